@@ -40,7 +40,13 @@ theorem life_wakeOne (q : Quirks) (s : State) (c' : Conn) :
   · exact ⟨rfl, rfl⟩
   · simp only []
     split
-    · rw [notify_conns]; exact ⟨rfl, rfl⟩
+    · split
+      · rw [notify_conns]; exact ⟨rfl, rfl⟩
+      · exact ⟨rfl, rfl⟩
+    split
+    · split
+      · rw [notify_conns]; simp
+      · simp
     split
     · exact ⟨rfl, rfl⟩
     · split
@@ -317,7 +323,7 @@ theorem Inv_wakeOne (q : Quirks) (s : State) (hI : Inv s) : Inv (wakeOne q s) :=
     have htgt : wakeTargetOk { s with wakeQ := rest } w = true := by
       have hl : isBlockedLive { s with wakeQ := rest } w.conn = true := isBlockedLive_of (s := { s with wakeQ := rest }) h0 hg hb
       simp [wakeTargetOk, hl, hb]
-    simp only [htgt, Bool.true_eq_false, and_false, if_false]
+    simp only [htgt, hpc, Bool.true_eq_false, Bool.false_eq_true, and_false, if_false]
     split
     · next hpe =>
       exfalso
